@@ -684,6 +684,13 @@ func validateLeafTypeValue(lt *sdcpb.SchemaLeafType, v any) error {
 	case "leafref":
 		// TODO: does this need extra validation?
 		return nil
+	case "bits", "binary":
+		// carried as strings (the names of the set bits / the base64 encoded data)
+		switch v.(type) {
+		case string:
+			return nil
+		}
+		return fmt.Errorf("unexpected type for a %s value %q: %T", lt.GetType(), v, v)
 	case "empty":
 		switch v.(type) {
 		case *emptypb.Empty:
